@@ -573,6 +573,15 @@ class SymCtx:
         self.inputs[name] = ('str', (v, list(domain)))
         return SymStr(v, domain)
 
+    def text(self, name, constants=(), language=None):
+        """an unbounded string (z3 String); `constants`: the literals the code under test may compare it with or
+        look it up among (they steer hashing); `language`: optional z3 regular expression the string belongs to"""
+        v = z3.String(name)
+        if language is not None:
+            self.solver.add(z3.InRe(v, language))
+        self.inputs[name] = ('zstr', v)
+        return ZStr(v, tuple(constants))
+
     def note(self, key, value):
         self.notes[key] = value
 
@@ -658,6 +667,8 @@ class SymCtx:
                 out[name] = z3.is_true(model.eval(v, model_completion=True))
             elif kind == 'str':
                 out[name] = v[1][model.eval(v[0], model_completion=True).as_long()]
+            elif kind == 'zstr':
+                out[name] = model.eval(v, model_completion=True).as_string()
         return out
 
     def nice_model(self, extra=None):
@@ -794,6 +805,9 @@ class ConCtx:
     def string(self, name, domain):
         return self.values[name]
 
+    def text(self, name, constants=(), language=None):
+        return self.values[name]
+
     def note(self, key, value):
         self.notes[key] = value
 
@@ -811,6 +825,81 @@ class ConCtx:
                 self.soft.append(label)
                 return
             raise ConcreteViolation(label)
+
+
+class ZStr:
+    """An unbounded symbolic string over z3's string theory: equality, membership in sets / dicts of literals
+    (hashing forks over the literals given at creation: equal to one of them, or to none), startswith / endswith /
+    substring tests, concatenation with literals.  Anything else is reported as not modelled."""
+    __slots__ = ('z', 'consts')
+
+    def __init__(self, z, consts=()):
+        self.z, self.consts = z, tuple(consts)
+
+    @staticmethod
+    def _term(o):
+        if isinstance(o, ZStr):
+            return o.z
+        if isinstance(o, str):
+            return z3.StringVal(o)
+        return None
+
+    def __eq__(self, o):
+        t = ZStr._term(o)
+        return False if t is None else SymBool(self.z == t)
+
+    def __ne__(self, o):
+        t = ZStr._term(o)
+        return True if t is None else SymBool(self.z != t)
+
+    def __hash__(self):
+        c = ctx()
+        for lit in self.consts:
+            if c.decide(self.z == z3.StringVal(lit)):
+                return hash(lit)
+        return hash(('ZStr: none of the literals',))
+
+    def _affix(self, o, f):
+        if isinstance(o, tuple):
+            return Or(*[self._affix(x, f) for x in o])
+        t = ZStr._term(o)
+        if t is None:
+            raise HarnessError('ZStr affix test with a non-string')
+        return SymBool(f(t, self.z))
+
+    def endswith(self, o):
+        return self._affix(o, z3.SuffixOf)
+
+    def startswith(self, o):
+        return self._affix(o, z3.PrefixOf)
+
+    def __contains__(self, o):
+        t = ZStr._term(o)
+        if t is None:
+            raise HarnessError('ZStr substring test with a non-string')
+        return bool(SymBool(z3.Contains(self.z, t)))
+
+    def __add__(self, o):
+        t = ZStr._term(o)
+        return NotImplemented if t is None else ZStr(z3.Concat(self.z, t), self.consts)
+
+    def __radd__(self, o):
+        t = ZStr._term(o)
+        return NotImplemented if t is None else ZStr(z3.Concat(t, self.z), self.consts)
+
+    def __len__(self):
+        return SymInt(z3.Length(self.z)).concretize()
+
+    def __repr__(self):
+        return '<symbolic text>'
+
+    __str__ = __repr__
+
+    def __format__(self, spec):
+        return '<symbolic text>'
+
+    def __getattr__(self, name):
+        raise HarnessError(f'str.{name} on a symbolic text is not modelled')
 
 
 class SymStr:
